@@ -735,6 +735,17 @@ func Extremes() []Named {
 			m = append(m, Doc{IDField("e", i), {N: "a", Len: 1, St: true, Val: pat(11000, i+7), Terms: []Term{{T: "x", Freq: 1}}}})
 		}
 		out = append(out, Named{"mib-block", m, true})
+		// one stored value above 4 MiB and one above 8 MiB (the frame is wider than the window sizes a
+		// compressor or a decompressor may assume); well compressible, so the file stays small
+		for _, sz := range []int{5 << 20, 9 << 20} {
+			v := make([]byte, sz)
+			for i := range v {
+				v[i] = byte('a' + (i/7+i/4099)%26)
+			}
+			w := []Doc{{IDField("e", 0), {N: "a", Len: 1, St: true, Val: v, Terms: []Term{{T: "x", Freq: 1}}}},
+				{IDField("e", 1), {N: "a", Len: 1, St: true, Val: []byte("small"), Terms: []Term{{T: "x", Freq: 1}}}}}
+			out = append(out, Named{fmt.Sprintf("window-%dmib", sz>>20), w, true})
+		}
 	}
 	// one field repeated hundreds of times in one document (indexed, stored, doc values)
 	{
